@@ -135,6 +135,13 @@ Theorem tritri_symmetry_refuted :
 Proof. vm_compute. repeat split; discriminate. Qed.
 Print Assumptions tritri_symmetry_refuted.
 
+
+(* the exact verdict is scale invariant: scaling all six points by s > 0 preserves the answer of the exact oracle
+   (so the predicate must answer alike on uniformly scaled copies of a pair - exercised by the check at 2^-13, 2^-10, 2^10) *)
+Theorem exact_verdict_scale_invariant : forall s t1 t2, 0 < s -> isect_oracle Rops (tsc s t1) (tsc s t2) = isect_oracle Rops t1 t2.
+Proof. exact isect_oracle_scale. Qed.
+Print Assumptions exact_verdict_scale_invariant.
+
 (* hypotheses are satisfiable: a clean two-mesh nested model passes, the tool exits 0 *)
 Example clean_example :
   let far : stri := ((6, 7, 8)%nat, ((0, 0, 9), (4, 0, 9), (0, 4, 9))%Q) in
